@@ -273,13 +273,13 @@ def decHandoverReq (b : Bytes) : Dec :=
   if b.length < 2 + 4 then .notFound else             -- `throw option_not_found()`
   let pad := byteAt b 0
   if b.length - 2 < pad then .malformed else
-  .val s!"{byteAt b 1 / 16 % 4}.{hexStr ((b.drop 2).take (b.length - 2 - pad))}"
+  .val s!"{byteAt b 1 / 16 % 16}.{hexStr ((b.drop 2).take (b.length - 2 - pad))}"
 
 def decHandoverReply (b : Bytes) : Dec :=
   if b.length < 2 + 4 then .malformed else
   let pad := byteAt b 0
   if b.length - 4 < pad then .malformed else
-  .val s!"{be16At b 2}.{byteAt b 1 / 16 % 4}.{hexStr ((b.drop 4).take (b.length - 4 - pad))}"
+  .val s!"{be16At b 2}.{byteAt b 1 / 16 % 16}.{hexStr ((b.drop 4).take (b.length - 4 - pad))}"
 
 /-- `handover_assist_info_type` / `mobile_node_id_type`: option code, length byte, that many bytes -/
 def decCodeLen (b : Bytes) : Dec :=
